@@ -675,6 +675,16 @@ fn check_decl_identifiers(file: &File, scope: &Scope) -> Result<File, Diagnostic
                             }
                     }
                 }
+                // Visit the enum referenced by a fixed field, so that it is
+                // ordered before the current declaration. Undeclared or
+                // invalid identifiers are reported by check_fixed_fields.
+                FieldDesc::FixedEnum { enum_id, .. } => {
+                    if let Some(enum_decl @ Decl { desc: DeclDesc::Enum { .. }, .. }) =
+                        scope.typedef.get(enum_id)
+                    {
+                        bfs(enum_decl, context, scope, diagnostics)
+                    }
+                }
                 // Ignore other fields.
                 _ => (),
             }
